@@ -195,6 +195,22 @@ func runC18(c *Ctx, r *Report, tier string) {
 			r.Fail("TOKENS", c.fname(fn), "private lookup construction", c.ipos(in), "completion builds its own lookup instead of using fillParseState")
 		}
 	}
+	// as in the parser (C10 BEFORE-COMMANDS): a word switches the command context only when no positional is pending
+	for _, in := range c.instrs(cp, c.isCallTo("(*Command).fillParseState")) {
+		call := in.(*ssa.Call)
+		if c.term(call.Call.Args[0]) == "Parser.Command(completion.parser(P0))" {
+			continue // the initial context
+		}
+		_, ok := c.Requires(cp, isInstr(in), func(l Lit) bool {
+			return !l.Pos && strings.HasPrefix(l.Term, "nonempty(parseState.positional(")
+		}, nil)
+		r.Check(ok, "TOKENS", cpn, "command words are recognised only with an empty positional queue", c.ipos(in), "fillParseState REQ(len(s.positional) == 0): the parser binds the word to a pending positional first", "a word naming a subcommand switches the context although a positional argument is still pending (the parser would bind it as that argument)")
+	}
+	// words after a terminator: all of them but the last (the word being completed) have been typed
+	for _, in := range c.instrs(cp, c.isCallTo("(*completion).skipPositional")) {
+		t := c.term(in.(*ssa.Call).Call.Args[2])
+		r.Check(strings.HasPrefix(t, "(len(parseState.args(") && strings.HasSuffix(t, ")) - 1)"), "TOKENS", cpn, "positionals skipped for the words already typed", c.ipos(in), "skipPositional(s, len(s.args)-1): the last word is the one being completed", "skips "+trunc(t, 80)+" positionals: the partial last word is counted as typed")
+	}
 	r.Check(nFill >= 2, "TOKENS", cpn, "context comes from fillParseState", c.pos(cp.Pos()), fmt.Sprintf("%d calls (root and on each command word)", nFill), "completion does not switch context with fillParseState")
 	// argument skipping condition
 	nSkip := 0
